@@ -44,7 +44,7 @@ func (cx *Ctx) elemFieldOf(v ssa.Value) (slot *ssa.IndexAddr, field string) {
 		if !ok {
 			return nil, ""
 		}
-		field = fieldVar(fa.X.Type(), fa.Field).Name()
+		field = fname(fieldVar(fa.X.Type(), fa.Field))
 		base = fa.X
 	case *ssa.Field:
 		field = x.X.Type().Underlying().(interface {
@@ -217,6 +217,56 @@ func checkC16(cx *Ctx, r *Report) {
 				}
 				if phi, ok := v.(*ssa.Phi); ok && !pol && flagSetBy(phi, s.pred, 0, map[*ssa.Phi]bool{}) {
 					firstCand = true
+				}
+			}
+			// "no candidate yet" spelled as "first iteration": index == 0 of the front-to-back loop over the list, where
+			// nothing but that test (and the index comparison) decides inside the loop - so iteration 0 always selects
+			for _, a := range p.Atoms {
+				if a.Op != "EQ" || a.Neg || a.A != "const:0" && a.B != "const:0" {
+					continue
+				}
+				bo, ok := a.Cond.(*ssa.BinOp)
+				if !ok || !(isRangeIndex(bo.X, fx) || isRangeIndex(bo.Y, fx)) {
+					continue
+				}
+				onlyThat := true
+				fi := fx.info(fn)
+				for _, cp := range p.Conds {
+					in, isIn := cp.Cond.(ssa.Instruction)
+					if !isIn || cp.Cond == a.Cond {
+						continue
+					}
+					b := in.Block()
+					if !(fi.reachable(b, s.pred) && fi.reachable(s.pred, b)) {
+						continue // outside the loop
+					}
+					if cb, isB := cp.Cond.(*ssa.BinOp); isB && (isRangeIndex(cb.X, fx) || isRangeIndex(cb.Y, fx)) {
+						continue // the loop's own bound test
+					}
+					onlyThat = false
+				}
+				if onlyThat {
+					firstCand = true
+				}
+			}
+			// nothing chosen yet by construction: the path passes through no other selection site
+			if !nothingYet {
+				passes := false
+				for _, t := range s0 {
+					if t.pred == s.pred {
+						continue
+					}
+					if _, isConst := constString(t.val); isConst {
+						continue
+					}
+					for _, b := range p.Blocks[:len(p.Blocks)-1] {
+						if b == t.pred {
+							passes = true
+						}
+					}
+				}
+				if !passes {
+					nothingYet = true
 				}
 			}
 			switch {
@@ -426,4 +476,35 @@ func (cx *Ctx) checkSelectionResultsOnly(r *Report) {
 		r.Check(n > 0, "R-SELECT", "sso:Response."+fld, "", "assigned from the selection", "the SSO handler never assigns Response."+fld)
 	}
 	vf.stopAt = nil
+}
+
+// isRangeIndex: v is the index of a front-to-back loop: phi(-1, v)+1 (range) or phi(0, phi+1) (for i := 0; ...; i++).
+func isRangeIndex(v ssa.Value, fx *Facts) bool {
+	if b, ok := v.(*ssa.BinOp); ok && b.Op == token.ADD {
+		phi, ok := b.X.(*ssa.Phi)
+		if !ok || fx.path(b.Y) != "const:1" || len(phi.Edges) < 2 {
+			return false
+		}
+		nInit := 0
+		for _, e := range phi.Edges {
+			switch {
+			case fx.path(e) == "const:-1":
+				nInit++
+			case e == v:
+			default:
+				return false
+			}
+		}
+		return nInit == 1
+	}
+	if phi, ok := v.(*ssa.Phi); ok && len(phi.Edges) == 2 {
+		for i := 0; i < 2; i++ {
+			if fx.path(phi.Edges[i]) == "const:0" {
+				if inc, ok := phi.Edges[1-i].(*ssa.BinOp); ok && inc.Op == token.ADD && inc.X == phi && fx.path(inc.Y) == "const:1" {
+					return true
+				}
+			}
+		}
+	}
+	return false
 }
